@@ -3,7 +3,7 @@ from . import common, engine_check
 
 PID = "C05"
 DESIGN = {"quick": ["Engine_quick_stop.cfg", "Engine_quick_fault.cfg", "Engine_quick_plan.cfg", "Engine_quick_ctrlc.cfg", "Stateful_quick.cfg", "Stateful_quick_mf.cfg"],
-          "thorough": ["Engine_thorough_stop.cfg", "Engine_thorough_fault.cfg", "Engine_thorough_plan.cfg", "Engine_quick_ctrlc.cfg", "Stateful_thorough.cfg", "Stateful_thorough2.cfg", "Stateful_quick_mf.cfg"]}
+          "thorough": ["Engine_thorough_stop.cfg", "Engine_thorough_fault.cfg", "Engine_thorough_plan.cfg", "Engine_thorough_w3.cfg", "Engine_quick_ctrlc.cfg", "Stateful_thorough.cfg", "Stateful_thorough2.cfg", "Stateful_quick_mf.cfg"]}
 
 
 def run(ctx):
